@@ -65,6 +65,11 @@ type Sess struct {
 	Expect     map[string]int  // expected PUBLISH multiset: key(topic,payload,retain) -> count
 	SessionID  string
 	Deadline   time.Duration // model of the keep-alive allowance (virtual time)
+	// DeadlineMax >= Deadline: the latest instant the allowance can reach when it is not known
+	// whether the broker wrote to the session (hand-scheduled gossip: whether a publish is
+	// routed to a session depends on what the publisher's node has heard). The session must be
+	// alive before Deadline and gone after DeadlineMax; idle steps never end in between.
+	DeadlineMax time.Duration
 	nextPID    uint16
 	connectSeq int
 	// Displaced: a newer session took over the client id; this one may still be served
@@ -143,6 +148,14 @@ func (w *World) modelPublish(mp, topic, payload string, retain bool, fromNode *N
 		if !s.Alive || w.mp(s) != mp || s.Node.Down {
 			continue
 		}
+		if !w.Cl.AutoGossip {
+			// the publisher's node may or may not know this session's filters (and may still know
+			// filters it has dropped): a write to it, which re-arms the allowance, is possible
+			if m := w.Cl.Clock.Now() + 2*time.Duration(s.KeepAlive)*time.Second; m > s.DeadlineMax {
+				s.DeadlineMax = m
+			}
+			continue
+		}
 		for f := range s.Subs {
 			if ref.MatchS(f, topic) {
 				s.Expect[pkey(topic, payload, false)]++
@@ -155,6 +168,7 @@ func (w *World) modelPublish(mp, topic, payload string, retain bool, fromNode *N
 // touch re-arms the model's keep-alive allowance: twice the keep-alive from now.
 func (w *World) touch(s *Sess) {
 	s.Deadline = w.Cl.Clock.Now() + 2*time.Duration(s.KeepAlive)*time.Second
+	s.DeadlineMax = s.Deadline
 }
 
 // endSession updates the model when a session ends. cause ∈ disconnect close timeout
@@ -373,8 +387,8 @@ func (w *World) Apply(st Step) (problem string, inconclusive bool) {
 			target := w.Cl.Clock.Now() + d
 			for _, x := range w.S {
 				if x.Alive && !x.Node.Down {
-					if diff := target - x.Deadline; diff > -500*time.Millisecond && diff < 500*time.Millisecond {
-						d += 500*time.Millisecond - diff
+					if target > x.Deadline-500*time.Millisecond && target < x.DeadlineMax+500*time.Millisecond {
+						d += x.DeadlineMax + 500*time.Millisecond - target
 						again = true
 					}
 				}
